@@ -54,6 +54,9 @@ type Config struct {
 	ArgKind string `json:"arg_kind,omitempty"`
 	// KeyOnly (rules selecting by attachment key): requests carry the attachment and NO positional arguments
 	KeyOnly bool `json:"attachment_only_requests,omitempty"`
+	// ThrottlingBehaviour: the concurrency rules carry ControlBehavior Throttling (the field belongs to QPS
+	// rules; a concurrency rule counts entries whatever it says)
+	ThrottlingBehaviour bool `json:"control_behavior_throttling,omitempty"`
 }
 
 func (c Config) String() string { b, _ := json.Marshal(c); return string(b) }
@@ -192,6 +195,13 @@ func (s *scen) ruleList() []*hotspot.Rule {
 	}
 	if s.cfg.R3 != nil {
 		rules = append(rules, mkRule("r3", *s.cfg.R3))
+	}
+	if s.cfg.ThrottlingBehaviour {
+		for _, r := range rules {
+			if r.MetricType == hotspot.Concurrency {
+				r.ControlBehavior = hotspot.Throttling
+			}
+		}
 	}
 	return rules
 }
@@ -514,6 +524,7 @@ func configs() []Config {
 		{R1: sp(2, nil, false, 0), ArgKind: "int64"},
 		{R1: sp(1, nil, true, 0), ArgKind: "named"},
 		{R1: sp(2, map[string]int64{"A": 1}, true, 0), KeyOnly: true},
+		{R1: sp(2, map[string]int64{"A": 1}, false, 0), R3: &r3, ThrottlingBehaviour: true},
 		{R1: sp(2, nil, false, -1), R3: &r3, ArgKind: "named"},
 	}
 }
